@@ -107,6 +107,20 @@ template <class K> struct QueryTable {
             for (int hf : s.chf[c]) { auto vs = s.hf_verts(hf); if (vs.size() >= 3) add("find_halfface_in_cell/find_halfedge_in_cell", c, [c, vs](const M &m) { std::vector<VertexHandle> v; for (int x : vs) v.emplace_back(x); return (uint64_t)m.find_halfface_in_cell(v, CellHandle(c)).idx() * 131 + m.find_halfedge_in_cell(v[0], v[1], CellHandle(c)).idx(); }); }
         }
         kernel_specific(s, (K *)nullptr);
+        // by-name lookups of existing properties (several value types under one name, missing ones) and registry counts
+        namespace E = ovm::Entity;
+        add("property_exists", 0, [](const M &m) { return (uint64_t)m.template property_exists<int, E::Vertex>("c20:val") + 2 * m.template property_exists<double, E::Vertex>("c20:val") + 4 * m.template property_exists<float, E::Vertex>("c20:val")
+            + 8 * m.template property_exists<std::string, E::Face>("c20:str") + 16 * m.template property_exists<bool, E::Edge>("c20:bool") + 32 * m.template property_exists<bool, E::Face>("c20:bool") + 64 * m.template property_exists<Vec3d, E::Cell>("c20:vec")
+            + 128 * m.template property_exists<std::vector<double>, E::HalfFace>("c20:vd") + 256 * m.template property_exists<int, E::Vertex>("c20:none"); });
+        add("n_props/n_persistent_props", 0, [](const M &m) { uint64_t h = 0; ovm::for_each_entity([&](auto tag) { using T = decltype(tag); h = h * 131 + m.template n_props<T>() * 7 + m.template n_persistent_props<T>(); }); return h; });
+        add("persistent_props iteration", 0, [](const M &m) { uint64_t h = 0; for (auto it = m.template persistent_props_begin<E::Vertex>(); it != m.template persistent_props_end<E::Vertex>(); ++it) h = h * 31 + hash_str((*it)->name()) + (*it)->size(); return h; });
+        for (int v = 0; v < s.nv; v += 3) {
+            add("get_property<int>(name)[v]", v, [v](const M &m) { auto p = m.template get_property<int, E::Vertex>("c20:val"); return p ? (uint64_t)(*p)[VertexHandle(v)] : 99999u; });
+            add("get_property<double>(name)[v]", v, [v](const M &m) { auto p = m.template get_vertex_property<double>("c20:val"); return p ? hd((*p)[VertexHandle(v)]) : 99999u; });
+        }
+        for (int c = 0; c < s.nc; ++c) add("get_property<Vec3d>(name)[c]", c, [c](const M &m) { auto p = m.template get_cell_property<Vec3d>("c20:vec"); return p ? hd((*p)[CellHandle(c)][1]) : 99999u; });
+        for (int hf = 0; hf < 2 * s.nf; hf += 2) add("get_property<vector<double>>(name)[hf]", hf, [hf](const M &m) { auto p = m.template get_halfface_property<std::vector<double>>("c20:vd"); if (!p) return (uint64_t)99999u; std::vector<double> copy = (*p)[HalfFaceHandle(hf)]; uint64_t h = copy.size(); for (double d : copy) h ^= hd(d); return h; });
+        for (int f = 0; f < s.nf; f += 2) add("get_property<string>(name)[f]", f, [f](const M &m) { auto p = m.template get_face_property<std::string>("c20:str"); return p ? hash_str((*p)[FaceHandle(f)]) : 99999u; });
     }
 };
 
@@ -121,6 +135,13 @@ template <class K> static void run_c20(Ctx &ctx, int rounds) {
     auto eb = e.mesh.template request_edge_property<bool>("c20:bool", false);
     for (int f = 0; f < e.s.nf; ++f) fstr[FaceHandle(f)] = "face" + std::to_string(f * 7919);
     for (int x = 0; x < e.s.ne; ++x) eb[EdgeHandle(x)] = (x * 7) % 3 == 0;
+    auto vi = e.mesh.template request_vertex_property<int>("c20:val", -1);
+    auto vd = e.mesh.template request_vertex_property<double>("c20:val", 0.5);
+    auto cv3 = e.mesh.template request_cell_property<Vec3d>("c20:vec", Vec3d(1, 2, 3));
+    auto hfvd = e.mesh.template request_halfface_property<std::vector<double>>("c20:vd");
+    for (int v = 0; v < e.s.nv; ++v) { vi[VertexHandle(v)] = v * 31 + 5; vd[VertexHandle(v)] = v * 0.25 - 3; }
+    for (int c = 0; c < e.s.nc; ++c) cv3[CellHandle(c)] = Vec3d(c, c * 2.5, -c);
+    for (int hf = 0; hf < 2 * e.s.nf; ++hf) hfvd[HalfFaceHandle(hf)] = std::vector<double>((size_t)(hf % 4), hf * 1.5);
     auto *hep = static_cast<PropT<int, ovm::Entity::HalfEdge> *>(e.hetag);
     QueryTable<K> T;
     T.build(e.s, e.vtag, e.ctag, hep->p, fstr, eb);
